@@ -201,7 +201,7 @@ def canon(e, rename, depth=0, rewrite=None, pname=None):
     if k == "local":
         return "local"
     if k == "agg":
-        return "%s::%s{%s}" % (rename(e[1]).split("::")[-1], e[2], ", ".join("%s: %s" % (n, c(x)) for n, x in e[3]))
+        return "%s::%s{%s}" % (rename(e[1]).split("::")[-1], rename(e[2]) if e[2] else e[2], ", ".join("%s: %s" % (n, c(x)) for n, x in e[3]))
     if k == "phi":
         return "phi"
     if k == "discr":
